@@ -23,7 +23,7 @@ def gen_random(cs, rnd, n):
             PC.add_rel(cs, "group", cfg, PC.variant(cfg, group=NOGROUP), rows, rnd)
         if i % 4 == 0:
             # text output of the single collection row is the concise JSON of the same collection
-            PC.add_rel(cs, "same", cfg, cfg, rows, rnd)
+            PC.add_rel(cs, "same", cfg, cfg, rows, rnd, json_out=False)       # (no JSON-only options: one of the two runs prints text)
             cs.recipes[-1]["runs"][0]["argv"] = cs.recipes[-1]["runs"][0]["argv"] + ["--output-style=text"]
 
 
